@@ -61,21 +61,11 @@ Proof.
     rewrite Forall_map. exact O.
   - exact (write_packed_ok s (loose_news s which) P O).
   - intros r v Hr. cbn [pk pl] in *. rewrite Hr.
-    destruct (existsb (Nat.eqb r) which && match ls s r with Some _ => true | None => false end) eqn:B.
-    + destruct (peel v =? v) eqn:E; [apply Z.eqb_eq in E; exact E|reflexivity].
-    + (* not packed now: the entry was in the file before, with the same value *)
-      assert (Hold : pk s r = Some v).
-      { clear P O. revert Hr. generalize (pk s). induction which as [|q which IH]; intros m Hr; cbn [loose_news flat_map apply_news fold_left app] in *; [exact Hr|].
-        fold (loose_news s which) in *.
-        cbn [existsb] in B. apply andb_false_iff in B.
-        unfold apply_news in Hr. rewrite fold_left_app in Hr. fold (apply_news (fold_left (fun acc x => upd acc (fst x) (snd x)) (match ls s q with Some v0 => [(q, Some v0)] | None => [] end) m) (loose_news s which)) in Hr.
-        assert (B' : existsb (Nat.eqb r) which && match ls s r with Some _ => true | None => false end = false).
-        { destruct B as [B|B]; [apply orb_false_iff in B; destruct B as [_ B]; rewrite B; reflexivity|rewrite B; apply andb_false_r]. }
-        specialize (IH B' _ Hr).
-        destruct (ls s q) as [w|] eqn:Eq; cbn [fold_left fst snd] in IH; [|exact IH].
-        destruct (Nat.eq_dec r q) as [->|Hne]; [|rewrite upd_other in IH by exact Hne; exact IH].
-        exfalso. destruct B as [B|B]; [apply orb_false_iff in B; destruct B as [B _]; rewrite Nat.eqb_refl in B; discriminate|rewrite Eq in B; discriminate]. }
-      exact (P r v Hold).
+    destruct (pk s r) as [w|] eqn:Ew.
+    + destruct (w =? v) eqn:E.
+      * apply Z.eqb_eq in E. subst w. exact (P r v Ew).
+      * destruct (peel v =? v) eqn:E2; [apply Z.eqb_eq in E2; exact E2|reflexivity].
+    + destruct (peel v =? v) eqn:E2; [apply Z.eqb_eq in E2; exact E2|reflexivity].
 Qed.
 
 Lemma run_ok : forall ops s, PeelOK s -> run_plain s ops -> PeelOK (run s ops).
